@@ -1,11 +1,11 @@
 SPECIFICATION Spec
 CONSTANTS MaxDepth = 3
-  Families <- FamT_C
+  Families <- FamCache
   StoreByCopy = TRUE
   TailKeepsSets = TRUE
   SplitContinues = TRUE
   SkipEmpty = TRUE
-  SplitCachesExport = FALSE
+  SplitCachesExport = TRUE
   SrcFRepass = TRUE
-INVARIANT Emitted
+INVARIANT SeenIsExpected
 CHECK_DEADLOCK FALSE
